@@ -486,6 +486,16 @@ func EncryptConf(et int32, key []byte, usage uint32, pt, conf []byte) ([]byte, e
 	if len(conf) != ConfLen(et) {
 		return nil, errors.New("kcrypto: confounder length")
 	}
+	return SealRaw(et, key, usage, append(append([]byte{}, conf...), pt...))
+}
+
+// SealRaw seals msg in the place of confounder|plaintext: encryption and integrity tag exactly as the etype defines them, for a
+// byte string of any length the cipher mode can carry (also shorter than a confounder). A key holder can produce such a
+// message; a receiver must survive it.
+func SealRaw(et int32, key []byte, usage uint32, msg0 []byte) ([]byte, error) {
+	if len(key) != KeyLen(et) {
+		return nil, fmt.Errorf("kcrypto: key length %d for etype %d", len(key), et)
+	}
 	switch et {
 	case DES3:
 		ke, err := deriveKe(et, key, usage)
@@ -493,7 +503,7 @@ func EncryptConf(et int32, key []byte, usage uint32, pt, conf []byte) ([]byte, e
 			return nil, err
 		}
 		ki, _ := deriveKi(et, key, usage)
-		msg := append(append([]byte{}, conf...), pt...)
+		msg := append([]byte{}, msg0...)
 		if len(msg)%8 != 0 {
 			msg = append(msg, make([]byte, 8-len(msg)%8)...)
 		}
@@ -511,7 +521,7 @@ func EncryptConf(et int32, key []byte, usage uint32, pt, conf []byte) ([]byte, e
 			return nil, err
 		}
 		ki, _ := deriveKi(et, key, usage)
-		msg := append(append([]byte{}, conf...), pt...)
+		msg := append([]byte{}, msg0...)
 		blk, _ := aes.NewCipher(ke)
 		c, err := ctsEncrypt(blk, msg)
 		if err != nil {
@@ -523,7 +533,7 @@ func EncryptConf(et int32, key []byte, usage uint32, pt, conf []byte) ([]byte, e
 	case AES128SHA2, AES256SHA2:
 		ke, _ := deriveKe(et, key, usage)
 		ki, _ := deriveKi(et, key, usage)
-		msg := append(append([]byte{}, conf...), pt...)
+		msg := append([]byte{}, msg0...)
 		blk, _ := aes.NewCipher(ke)
 		c, err := ctsEncrypt(blk, msg)
 		if err != nil {
@@ -535,7 +545,7 @@ func EncryptConf(et int32, key []byte, usage uint32, pt, conf []byte) ([]byte, e
 		return append(c, m.Sum(nil)[:MacLen(et)]...), nil
 	case RC4:
 		k1 := hmacMD5(key, rc4UsageBytes(usage))
-		msg := append(append([]byte{}, conf...), pt...)
+		msg := append([]byte{}, msg0...)
 		chk := hmacMD5(k1, msg)
 		k3 := hmacMD5(k1, chk)
 		c, _ := rc4.NewCipher(k3)
